@@ -411,7 +411,7 @@ func visitInstr(fr *frame, instr ssa.Instruction) continuation {
 		}
 
 	case *ssa.Lookup:
-		fr.env[instr] = lookup(instr, fr.get(instr.X), concKey(fr.get(instr.Index)))
+		fr.env[instr] = lookup(instr, fr.get(instr.X), symMapKey(fr.get(instr.X), fr.get(instr.Index)))
 
 	case *ssa.MapUpdate:
 		m := fr.get(instr.Map)
